@@ -214,7 +214,12 @@ def oracle(case, rec):
 # reference stages (vp.refmodel) run with the same options
 
 MAG = [None, {'mode': 'median', 'stat_length': 3}, {'mode': 'reflect'}, {'mode': 'mean', 'stat_length': 2}, {'mode': 'edge'},
-       {'mode': 'symmetric'}]
+       {'mode': 'symmetric'},
+       # every np.pad mode with a keyword of its own (a keyword that is dropped on the way falls back to np.pad's default)
+       {'mode': 'symmetric', 'reflect_type': 'odd'}, {'mode': 'reflect', 'reflect_type': 'odd'},
+       {'mode': 'maximum', 'stat_length': 2}, {'mode': 'minimum', 'stat_length': (1, 3)},
+       {'mode': 'constant', 'constant_values': 0.25}, {'mode': 'linear_ramp', 'end_values': (0.5, -0.5)},
+       {'mode': 'wrap'}]
 
 
 @st.composite
